@@ -1223,6 +1223,8 @@ class KernelAnalysis:
                                                      '(expected weight j): `%s`' % (name, v.w, norm(args[i])[:60]), {})
             elif v.kind == 'w' and (v.w == Aff.const(0)) and not v.reads:
                 pass
+            elif v.kind == 'w' and v.w == ANY and not v.reads:
+                pass        # the zero series (numpy.zeros_like(x_data)) is homogeneous of every weight
             elif v.kind == 'bot':
                 self.unk(c, 'argument %d of %s: %s' % (i, name, v.why))
             else:
